@@ -377,3 +377,23 @@ Proof. exact read_frame3_hang_genuine. Qed.
 Print Assumptions C08_M3_no_spurious_hang.
 Print Assumptions C08_M3_flush_hang_genuine.
 Print Assumptions C08_M3_read_hang_genuine.
+
+(* ---- M3: time never runs backwards and nothing is delivered before it is sent.  For every input (sorted or not), every
+   schedule of the transport (sorted or not) and every latency: the instants of all output events - handler events,
+   accepted chunks, abandoned calls - are non-decreasing in output order; and the bytes of every accepted chunk are the
+   next bytes, after those accepted before, of frames whose sends come earlier in the output, each at an instant not
+   later than the chunk's.  Proofs in Conn/Sem3Mono.v. ---- *)
+From Passage Require Import Conn.Sem3Mono.
+
+Theorem C08_M3_time_monotone : forall o cfg e encf loclat cap sch s,
+  nondecreasing (instants (run3 o cfg e encf loclat cap sch s)) = true.
+Proof. exact run3_mono. Qed.
+
+Theorem C08_M3_delivery_not_before_send : forall o cfg e encf loclat cap sch s pre t b post,
+  run3 o cfg e encf loclat cap sch s = pre ++ OW t b :: post ->
+  (exists rest, fbytes encf (trace_of pre) = wbytes pre ++ b ++ rest)
+  /\ (forall t' pk vs, In (OT (t', TSend pk vs)) pre -> t' <= t).
+Proof. exact M3_delivery_not_before_send. Qed.
+
+Print Assumptions C08_M3_time_monotone.
+Print Assumptions C08_M3_delivery_not_before_send.
